@@ -459,7 +459,7 @@ func (e *Engine) verifyFunc(key string, timeoutS, seed int, allSolvers bool, sol
 		}
 		for _, g := range con.Ghosts {
 			site := strings.TrimPrefix(g.After, "before:")
-			if site != "return" && !strings.HasPrefix(site, "go[") {
+			if site != "return" && site != "entry" && !strings.HasPrefix(site, "go[") {
 				if _, ok := fr.callIdx[site]; !ok {
 					fe.warns = append(fe.warns, fmt.Sprintf("%s: ghost update refers to call site %s which does not exist", res.Name, site))
 				}
@@ -638,6 +638,13 @@ func (fe *FnExec) setupEntry(fr *frame) {
 	}
 	fr.entry = st
 	if fr.con != nil {
+		// ghost at entry: initial value of a scratch ghost (a counter the contract keeps)
+		for _, g := range fr.con.Ghosts {
+			if g.After == "entry" {
+				ctx := fe.ctxFor(fr, st)
+				fe.assignLvalue(ctx, st, g.LHS, ctx.eval(g.RHS.E))
+			}
+		}
 		for _, rq := range fr.con.Requires {
 			ctx := fe.ctxFor(fr, st)
 			fe.assume(ctx.evalBool(rq.X), "requires "+rq.Label)
